@@ -32,9 +32,12 @@ CLAIMED["C03"] = dict(
         "accept exactly when the spec says valid, same decoded values, documented error class.",
    note="Bounds: Block Header sizes 8 and 12 bytes (quick), up to 24 (thorough). CRC32 is abstracted to an "
         "arbitrary value in the Block Header/Footer obligations (real CRC32 vs definition: Stream Header "
-        "obligation and C14). OUTSIDE the claim: lzma_decode() (LZMA payload bits) - measured not to reach a "
-        "verdict under CBMC; LZMA2/Block/Stream state machines are added as separate obligations when present "
-        "in harness/C03/obl.py.")
+        "obligation and C14). The LZMA2 chunk layer (all inputs <= 8 quick / 10 thorough bytes, vs an independent "
+        "chunk-grammar parser), the Block decoder body, the Index verification (index_hash) and the MicroLZMA "
+        "wrapper are decided with the LZMA1 payload decoder / filter chain / hash functions as contract stubs "
+        "(listed per obligation in the evidence). OUTSIDE the claim: lzma_decode() (LZMA payload bits) - measured "
+        "not to reach a verdict under CBMC (also with --max-field-sensitivity-array-size); full stream_decode "
+        "sequencing across several Blocks; lzma_index_decoder.")
 NOT_APPLICABLE = {
  "C20": "xzgrep/xzdiff/xzless are POSIX shell scripts run by /bin/sh, sed, grep, diff: no symbolic executor for sh/sed exists in this image and CBMC/z3/cvc5 cannot execute them from source or IR; an SMT model of sed and shell quoting would verify the model, not the scripts.",
 }
@@ -96,7 +99,9 @@ CLAIMED["C02"] = dict(
         "resumable), Block Header for every lzma_block the size function accepts (1-2 filters, symbolic options), the "
         "LZMA2 dictionary-size byte for all 2^32 sizes, LZMA1 properties, Index encoding incl. output slicing, and the "
         "bound functions' arithmetic for all 64-bit sizes.",
-   note="OUTSIDE: validity of the LZMA/LZMA2 payload bits and 'an independent decoder recovers the input' (needs the LZMA "
+   note="Also decided: the Block encoder body (payload, zero padding to four, Check value, true sizes handed back) with the "
+        "filter chain and Check function as contract stubs. "
+        "OUTSIDE: validity of the LZMA/LZMA2 payload bits and 'an independent decoder recovers the input' (needs the LZMA "
         "symbol coder: measured no verdict); chains of 3-4 filters; headers above 32 bytes; sufficiency of the bound for "
         "real compressed data.")
 NOT_APPLICABLE.pop("C02", None)
@@ -106,7 +111,10 @@ CLAIMED["C05"] = dict(
         "== header flags (all 2^96 footers); Stream Padding only in multiples of four, identical under any split; header "
         "split equivalence; Block -> Index record; every single-bit flip of accepted Stream Headers / Block Headers rejected "
         "with the real CRC32; a Stream never ends inside a Block.",
-   note="Index hash, Block decoder and LZMA payload are contract stubs here (their own obligations: C03/C04/C16 when present). "
+   note="In the stream_decode obligations Index hash, Block decoder and LZMA payload are contract stubs; their own obligations "
+        "are block_body_rules (declared sizes / Block Padding / Check field, truncation), index_hash_exact_* (every byte "
+        "string as Index vs the one valid encoding; quick: one Block, one call; sliced and two-Record variants are "
+        "thorough-tier) and C03's lzma2_chunk_layer. "
         "OUTSIDE: corruption inside the LZMA bit stream (detected through the Check, which needs the payload decoder); "
         "multi-byte overwrites (CRC collisions are true counterexamples); .lz/.lzma truncation is under C16.")
 NOT_APPLICABLE.pop("C05", None)
@@ -137,8 +145,12 @@ CLAIMED["C06"] = dict(
         ".lz/.lzma/auto decoders, VLI encode/decode resumable vs single-call, Index encoder; and the encoder-side guarantee "
         "that in RUN mode the match finder only sees positions with a full look-ahead buffered (lz_encoder window), which "
         "is what makes encoder output independent of how input arrives.",
-   note="OUTSIDE: lzma_decode() resume points (a genuine slicing defect there, D1 in DESIGN.md, is known from a hand-made "
-        "test and cannot be reached by CBMC), lzma2_decode/block_decode slicing, LZMA encoder byte determinism across "
+   note="Also decided for every slicing within their bounds: LZMA2 chunk layer, Block decoder body, Index verification. "
+        "KNOWN FINDING D3 (known-findings.txt, DESIGN.md section 5): the input consumed when an LZMA2 chunk is rejected because "
+        "its LZMA data overruns the Compressed Size field depends on slicing (the status does not); the check prints "
+        "KNOWN-FINDING for it and exits 0. "
+        "OUTSIDE: lzma_decode() resume points (a genuine slicing defect there, D1 in DESIGN.md, is known from a hand-made "
+        "test and cannot be reached by CBMC), LZMA encoder byte determinism across "
         "thread counts, filter chain as text vs structure.")
 NOT_APPLICABLE.pop("C06", None)
 CLAIMED["C01"] = dict(
@@ -158,7 +170,8 @@ CLAIMED["C12"] = dict(
         "chunk headers carry the true sizes and reset level; no empty Block on flush without input; filter-chain update "
         "accepted only where allowed, old chain kept and no half-initialised encoder left ready on refusal; lc/lp/pb "
         "change only between chunks and announced in the next header; LZ window flush semantics.",
-   note="OUTSIDE: that the LZMA bits emitted before a flush decode to the input (needs the symbol coder: measured no "
+   note="Also: Block encoder - a completed SYNC_FLUSH writes payload only and leaves the Block open (C02 block_encode_body). "
+        "OUTSIDE: that the LZMA bits emitted before a flush decode to the input (needs the symbol coder: measured no "
         "verdict), SYNC_FLUSH refusal by BCJ/LZMA1 at the raw encoder level beyond simple_code, the threaded encoder, "
         "xz --flush-timeout/--block-list plumbing. LZMA2 size constants are scaled down in the chunk obligations.")
 NOT_APPLICABLE.pop("C12", None)
@@ -177,11 +190,12 @@ CLAIMED["C04"] = dict(
    text="Memory safety, absence of undefined behaviour, source assert()s and bounded termination (unwinding assertions) are "
         "checked by CBMC in EVERY obligation; this property re-runs the decoder/parser obligations (header decoders over "
         "all inputs, stream_decode / .lz / .lzma / auto state machines from arbitrary states, VLI decoder, lzma_code "
-        "protocol: documented codes only) and adds the LZ dictionary primitives as inductive steps from an arbitrary "
+        "protocol: documented codes only; LZMA2 chunk layer, Block decoder body, Index verification, MicroLZMA wrapper) and adds the LZ dictionary primitives as inductive steps from an arbitrary "
         "valid dictionary (dict_repeat / put / get / wrap) and the completeness of lzma_decoder_reset.",
    note="THE LARGEST HOLE: lzma_decode() (LZMA payload bits -> dictionary operations) is outside - measured: symex does not "
         "finish; it is replaced by the assumption that it calls the dictionary primitives with validated distances. Also "
-        "outside: stream_decoder_mt under real concurrency, index/file-info decoders, lzma_str_to_filters, the SSE2 variant "
+        "outside: stream_decoder_mt under real concurrency, lzma_index_decoder, lzma_str_to_filters (tried: symbolic execution "
+        "did not finish for 5-character strings), the SSE2 variant "
         "of dict_repeat, leak checking of full decode runs. dict_repeat content/frame parts are thorough-tier only.")
 for _p in ("C04", "C09"):
     NOT_APPLICABLE.pop(_p, None)
